@@ -35,9 +35,9 @@ func (x *runner) corpus() {
 	const iqPayload = "There are two spiritual dangers in not owning a farm."
 	const msgPayload = "One is the danger of supposing that breakfast comes from the grocery, and the other that heat comes from the furnace."
 	senders := []senderCase{
-		{BS: 0, Acked: true, Ops: []opJ{w(iqPayload)}},                         // ibb_test.go TestSendSelf/iq
-		{BS: 5, Acked: false, Ops: []opJ{w(msgPayload)}},                       // ibb_test.go TestSendSelf/msg
-		{BS: 5, Acked: true, Ops: []opJ{w("hello world, this is a test")}},     // one packet larger than the block size
+		{BS: 0, Acked: true, Ops: []opJ{w(iqPayload)}},                                   // ibb_test.go TestSendSelf/iq
+		{BS: 5, Acked: false, Ops: []opJ{w(msgPayload)}},                                 // ibb_test.go TestSendSelf/msg
+		{BS: 5, Acked: true, Ops: []opJ{w("hello world, this is a test")}},               // one packet larger than the block size
 		{BS: 3, Acked: true, Seq0: 65534, Ops: []opJ{wn(3), wn(3), wn(3), wn(3), wn(2)}}, // wrap-around
 		{BS: 1, Acked: false, Seq0: 65535, Ops: []opJ{wn(1), wn(1), wn(1), wn(1), wn(1), wn(1), wn(1)}},
 		{BS: 4, Acked: true, Ops: []opJ{w(""), flush, w("ab"), flush, w("c"), flush, w("defgh"), flush}},
@@ -46,6 +46,8 @@ func (x *runner) corpus() {
 		{BS: 0, Acked: true, Ops: []opJ{wn(768*2 + 1), wn(2047), wn(2048), wn(2049)}},
 		{BS: 4096, Acked: false, Ops: []opJ{wn(1), wn(4096), wn(767), flush, wn(769)}, Remote: true},
 		{BS: 16, Acked: true, Ops: nil},
+		{BS: 6, Acked: false, Incoming: true, Ops: []opJ{w("accepted streams write too"), flush, w("!")}},
+		{BS: 0, Acked: true, Incoming: true, NoStanzaAttr: true, Ops: []opJ{wn(5000)}, Remote: true},
 		{BS: 16, Acked: true, Ops: []opJ{flush, flush}},
 	}
 	for _, c := range senders {
@@ -109,6 +111,12 @@ func (x *runner) corpus() {
 			{Op: "data", SID: "a", IQ: true, Seq: "65536", Data: d64("QUJD"), Raw: true},
 			{Op: "data", SID: "a", IQ: true, Seq: "0", Data: d64("QUJD")},
 			{Op: "read", SID: "a", N: 64}}},
+		{Events: []evJ{{Op: "openr", SID: "b", BS: 8, BSText: "65536", Listening: true},
+			{Op: "openr", SID: "c", BS: 8, BSText: "abc", Listening: true},
+			{Op: "openr", SID: "a", BS: 8, Listening: true},
+			{Op: "data", SID: "a", IQ: false, Seq: "70000", Data: d64("QUJD"), Raw: true},
+			{Op: "data", SID: "a", IQ: false, Seq: "0", Data: d64("QUJD")},
+			{Op: "read", SID: "a", N: 64}}},
 		{Events: []evJ{{Op: "openl", SID: "a", BS: 8, Accept: true},
 			{Op: "data", SID: "a", IQ: true, Seq: "-1", Data: d64("QUJD"), Raw: true},
 			{Op: "data", SID: "a", IQ: true, Seq: "abc", Data: d64("QUJD"), Raw: true},
@@ -147,6 +155,7 @@ func (x *runner) generated() {
 	if x.o.Search {
 		nSend, nRecv, nSchedRand, nPipe = nSend*4, nRecv*4, nSchedRand*4, nPipe*3
 	}
+	x.runRaces()
 	for i := 0; i < nSend; i++ {
 		x.runSender(genSender(x.r, sendBudget), "generated")
 	}
@@ -165,7 +174,6 @@ func (x *runner) generated() {
 	for i := 0; i < nPipe; i++ {
 		x.runPipe(genPipe(x.r, pipeMax), "generated")
 	}
-	x.runRaces()
 	if th {
 		// a genuine pass over the 65536-packet boundary, both carriers
 		var ops []opJ
@@ -243,6 +251,69 @@ func (x *runner) runRaces() {
 			return
 		}
 		hx.WithTimeout(watchdog, func() { ca.Close() })
+	}()
+	// 3. the peer closes while the application writes
+	func() {
+		p, err := newPair()
+		if err != nil {
+			return
+		}
+		defer p.close()
+		ctx, cancel := context.WithTimeout(context.Background(), watchdog)
+		ca, err := p.ha.OpenIQ(ctx, stanza.IQ{To: jid.MustParse(remoteAddr)}, p.sa, true, 16, "w0")
+		cancel()
+		if err != nil {
+			return
+		}
+		var cb *ibb.Conn
+		select {
+		case cb = <-p.acceptedCh:
+		case <-time.After(watchdog):
+			return
+		}
+		var got []byte
+		var wg sync.WaitGroup
+		wg.Add(3)
+		go func() {
+			defer wg.Done()
+			got, _ = readAll(hx.NewRand(5), cb, false)
+		}()
+		written := 0
+		go func() {
+			defer wg.Done()
+			for i := 0; i < 400; i++ {
+				n, err := ca.Write([]byte("0123456789"))
+				written += n
+				if err != nil {
+					return
+				}
+			}
+		}()
+		var pn string
+		go func() {
+			defer wg.Done()
+			time.Sleep(3 * time.Millisecond)
+			pn = hx.Catch(func() { cb.Close() })
+		}()
+		if !hx.WithTimeout(5*watchdog, wg.Wait) {
+			x.res.Fail("C15/concurrent/peer-close-during-write:hang", "a close request arriving while the application writes wedges writer, reader or Close", k)
+			return
+		}
+		if pn != "" {
+			x.res.Fail("C15/concurrent/peer-close-during-write:panic", "Close panics: "+pn, k)
+		}
+		for _, s := range []chan string{p.servedA, p.servedB} {
+			select {
+			case m := <-s:
+				x.res.Fail("C15/concurrent/peer-close-during-write:serve-aborted", "a serve loop ended: "+m, k)
+			default:
+			}
+		}
+		// what the closing side read must be a prefix of what was written, intact
+		want := []byte(strings.Repeat("0123456789", 400))
+		if len(got) > len(want) || string(got) != string(want[:len(got)]) {
+			x.res.Fail("C15/concurrent/peer-close-during-write:bytes-differ", "the closing side read bytes that are not a prefix of what the peer wrote", k)
+		}
 	}()
 	// 2. the application closes while another goroutine of it reads and writes
 	func() {
